@@ -342,3 +342,81 @@ def target_residual_and_weights():
 
 def targets():      # noqa: F811
     return _targets_before_residual() + [target_residual_and_weights()]
+
+
+_targets_before_table = targets
+
+
+def target_parameters_table():
+    """`FitResult.to_parameters_dataframe`: one row per (element, fitted parameter), elements in the order of the circuit's
+    identifier map, parameters sorted by label; every cell of a row comes from THAT element's THAT parameter -- value, unit, fixed
+    flag ("Yes"/"No") and the relative standard error |stderr / value * 100| (NaN when there is no error estimate, when the
+    parameter is fixed or when the value is 0) -- and the element name is the circuit's name for the element under the identifier
+    map asked for (`running`).  Real method on recording stand-ins with uninterpreted values (E3); two elements with one and two
+    parameters stand for any circuit (the loop bodies keep no state between rows but the appends)."""
+    from pyvc import overload as O
+    from . import dataflow as DF
+    from .dataflow import T
+
+    def run(sess: Session):
+        class P:
+            def __init__(self, tag, fixed, has_err=True):
+                self.value, self.unit, self.fixed = T.var(f"value[{tag}]"), f"unit[{tag}]", fixed
+                self.stderr = T.var(f"stderr[{tag}]") if has_err else None
+        for running in (False, True):
+            def once():
+                class El:
+                    def __init__(self, name, values):
+                        self.name, self.values = name, values
+
+                    def __repr__(self):
+                        return self.name
+
+                    def get_values(self):          # (free parameters first, fixed ones after: not the sorted order)
+                        return dict(self.values)
+
+                    def get_symbol(self):
+                        return self.name
+                e1, e2 = El("elem1", {"R": 1.0}), El("elem2", {"Y": 2.0, "n": 0.5})
+                ext, internal = {e1: 1, e2: 1}, {e1: 0, e2: 1}
+                asked = []
+
+                class Circuit:
+                    def generate_element_identifiers(self, running=False):
+                        return dict(internal if running else ext)
+
+                    def get_element_name(self, element, identifiers=None):
+                        asked.append((element, dict(identifiers)))
+                        return f"name({element},{'running' if identifiers == internal else 'per-type'})"
+                params = {"name(elem1,per-type)": {"R": P("e1.R", False)}, "name(elem2,per-type)": {"n": P("e2.n", True), "Y": P("e2.Y", False, has_err=False)}}
+                me = type("Fit", (), {"circuit": Circuit(), "parameters": params})()
+                ns = {"_is_boolean": lambda x: isinstance(x, bool), "nan": "NaN", "abs": lambda x: abs(x),
+                      "DataFrame": type("DataFrame", (), {"from_dict": staticmethod(lambda d: d)})}
+                O.load("analysis/fitting", ["FitResult.to_parameters_dataframe"], ns)
+                return ns["to_parameters_dataframe"](me, running=running), params
+            for log, (out, params), facts in DF.explore(once):
+                tag = f"[running={running}, {','.join(f'{w}={v}' for w, v in log)}]"
+                ok = isinstance(out, dict) and sorted(out) == sorted(["Element", "Parameter", "Value", "Std. err. (%)", "Unit", "Fixed"])
+                sess.check("post", [], z3.BoolVal(ok), 0, label=f"the table has the six documented columns{tag}")
+                if not ok:
+                    continue
+                kind_ = "running" if running else "per-type"
+                want_rows = [("elem1", "R", params["name(elem1,per-type)"]["R"]), ("elem2", "Y", params["name(elem2,per-type)"]["Y"]), ("elem2", "n", params["name(elem2,per-type)"]["n"])]
+                n_ok = all(len(out[k]) == 3 for k in out)
+                sess.check("post", [], z3.BoolVal(n_ok), 0, label=f"one row per (element, parameter){tag}")
+                if not n_ok:
+                    continue
+                for r, (el, lab, p) in enumerate(want_rows):
+                    sess.check("post", [], z3.BoolVal(out["Element"][r] == f"name({el},{kind_})" and out["Parameter"][r] == lab), 0, label=f"row {r}: element name under the requested numbering and parameter label, elements in circuit order, labels sorted{tag}")
+                    DF.eq_check(sess, f"row {r}: the value is that of this element's parameter{tag}", out["Value"][r], p.value)
+                    sess.check("post", [], z3.BoolVal(out["Unit"][r] == p.unit and out["Fixed"][r] == ("Yes" if p.fixed else "No")), 0, label=f"row {r}: unit and fixed flag are those of this parameter{tag}")
+                    zero = any("eq" in str(w) and v and str(p.value.e) in str(getattr(w, "key", "")) for w, v in log)
+                    if p.stderr is None or p.fixed or zero:
+                        sess.check("post", [], z3.BoolVal(out["Std. err. (%)"][r] == "NaN"), 0, label=f"row {r}: no relative error for a fixed parameter, a missing estimate or a zero value{tag}")
+                    else:
+                        DF.eq_check(sess, f"row {r}: relative error = |stderr / value * 100| of this parameter{tag}", out["Std. err. (%)"][r], abs(p.stderr / p.value * 100))
+    return ("analysis/fitting:FitResult.to_parameters_dataframe", "analysis/fitting", "FitResult.to_parameters_dataframe", run)
+
+
+def targets():      # noqa: F811
+    return _targets_before_table() + [target_parameters_table()]
